@@ -59,6 +59,10 @@ def jobs(tier, seed):
                        "budget": {"spurious": 2 if n <= 3 else 1}})
             if n <= 3:
                 js.append({"label": f"dag{spec[1]}|spurious1,noack1", "wl": spec, "budget": {"spurious": 1, "noack": 1}})
+        for i in range(8):
+            n = 5 + i % 3
+            js.append({"label": f"dag_seeded[{n},seed={seed},{i}]|all-orders (capped 600 s)", "wl": wl("dag_seeded", n, seed, i),
+                       "budget": {}, "time_cap": 600, "max_states": 400000})
         for spec in JOINS:
             js.append({"label": f"{spec[0]}{spec[1]}|spurious2", "wl": spec, "budget": {"spurious": 2}})
             js.append({"label": f"{spec[0]}{spec[1]}|spurious1,noack1", "wl": spec, "budget": {"spurious": 1, "noack": 1}})
